@@ -172,7 +172,7 @@ class MapEngine:
                 if kw.get("model_key") not in (None,) + tuple(E_MODELS):
                     kw["model_key"] = rng.choice(E_MODELS)
                 if kw.get("optimal_fit_edelta"):
-                    kw["optimal_fit_num_samples"] = 5
+                    kw["optimal_fit_num_samples"] = 7
                 if rng.random() < 0.12:
                     # multi-pass fit whose last pass has no points
                     kw = {"model_key": rng.choice(E_MODELS),
